@@ -54,7 +54,7 @@ PROPS["C12"]["level_text"] = ("seeded search over interleavings of 1-3 concurren
     "behaviours, store faults, client aborts and replica crashes; invariants during the run and register-linearizability (porcupine) over the recorded history")
 PROPS["C13"]["level_text"] = ("complete position x fault-kind sweep (and pairs) over the store-command sequence of each sampled scenario; "
     "seeded choice of scenario and world")
-PROPS["C12"]["quick_runs"] = 4800
+PROPS["C12"]["quick_runs"] = 8000
 PROPS["C13"]["quick_runs"] = 320
 
 PROPS["C14"] = {
@@ -161,4 +161,20 @@ PROPS["C01"] = {
             "non-trivial = a valid credential was exercised without bypass; distinct = distinct world key + event hash",
     "level_text": "seeded search over credential histories x clock x store state x bypass configurations, observed at the upstream",
     "assumptions": COMMON_ASSUMPTIONS + ["two simultaneous credentials and the boundary second of the lifetime are judged 'either'; 301 path normalisation by the router counts as 'not served'"],
+}
+
+PROPS["C02"] = {
+    "level": "fault_enumeration",
+    "quick_runs": 96, "quick_budget_s": 150, "thorough_budget_s": 600,
+    "rule": "one run = one sampled world (store, cookie name incl. names ending in _0 / _csrf, secret of 16/24/32 bytes raw and base64, cookie-expire 0 or finite, session size "
+            "tiny / around the split threshold / 2-3 parts, csrf-per-request) in which two users log in; then EVERY alteration of the issued artefacts is enumerated: substitution at "
+            "every position (strided inside multi-kilobyte values in quick, dense near separators and ends) x 7 replacement classes, every truncation, 8 extensions, every part drop / "
+            "duplication / swap, all mixes of two sessions' parts, splices at every separator and inside the value, field-boundary shifts value<->timestamp<->signature and name<->value, "
+            "timestamp edits, re-signing with 4 other secrets, signature removal, cross-name moves session<->CSRF<->part names, CSRF substitution sweep at the callback, and for Redis "
+            "bit flips / truncations / swaps / extension of the stored value; oracle through /oauth2/auth exposing every session field: rejected or exactly the session issued; every "
+            "Set-Cookie value and Redis value is scanned (raw and base64-decoded per field) for 8-byte windows of tokens, e-mails, user names; "
+            "non-trivial = more than 100 alterations presented; distinct = distinct world key + event hash",
+    "level_text": "complete enumeration of storage/transport alterations of every artefact issued in each sampled world",
+    "assumptions": COMMON_ASSUMPTIONS + ["cryptographic strength of HMAC-SHA256 / AES is not in scope: the check shows that the MAC covers what it must and that decoding is strict",
+                                          "an altered string that decodes to the identical bytes (unused trailing bits of padded base64) and yields exactly the issued session is allowed by the statement"],
 }
